@@ -35,6 +35,18 @@ func init() {
 }
 
 func runC12(c *an.Ctx) {
+	// ---- C12-R12: builder wiring of the components this property rests on
+	c.Floor("C12-R12", 10)
+	builderWiring(c, "C12-R12", map[string][]string{
+		"initFilterStorage|filter/filterstorage.ConfigRuleLists":       {"ResultCacheCount", "ResultCacheEnabled"},
+		"initFilterStorage|filter/filterstorage.ConfigBlockedServices": {"ResultCacheCount", "ResultCacheEnabled"},
+		"initFilterStorage|filter/filterstorage.ConfigCustom":          nil,
+		"newSafeSearchConfig|filter/filterstorage.ConfigSafeSearch":    {"ResultCacheCount"},
+		"initSafeBrowsing|filter/hashprefix.FilterConfig":              {"CacheTTL", "CacheCount", "Cloner"},
+		"initAdultBlocking|filter/hashprefix.FilterConfig":             {"CacheTTL", "CacheCount", "Cloner"},
+		"initNewRegDomains|filter/hashprefix.FilterConfig":             {"CacheTTL", "CacheCount", "Cloner"},
+		"initFilterStorage|agdservice.RefreshWorkerConfig":             {"Refresher"},
+	})
 	// ---- R11: an answer served from a result cache is initialised from the current request
 	c.Floor("C12-R11", 1)
 	sharedReplyInit(c, "C12-R11")
